@@ -29,6 +29,12 @@ class S2(S):
     extra: int = 0
 
 
+class Matrix(State):
+    rows: Sequence[Sequence[int]] = ()
+    groups: Sequence[Set[str]] = ()
+    tables: tuple[Mapping[str, int], ...] = ()
+
+
 class Twin1(State):
     n: int = 1
 
@@ -66,6 +72,14 @@ def problems():
             out.append("a stored container could be mutated in place")
         except (AttributeError, TypeError):
             pass
+    for outer in (tuple, list):
+        ra, ga, ta = [1, 2], {"a"}, {"k": 1}
+        m = Matrix(rows=outer([ra]), groups=outer([ga]), tables=outer([ta]))
+        before = repr(m)
+        m2 = copy.copy(m)
+        ra.append(9); ga.add("z"); ta["q"] = 2
+        if repr(m) != before or m2 != m or not isinstance(m.rows[0], tuple) or not isinstance(m.groups[0], frozenset):
+            out.append(f"containers nested inside a {outer.__name__} argument are stored by reference: {before} -> {m!r}")
     u = s.updated(n=7, unknown_name=1)
     if (u.n, u.seq, u.st) != (7, s.seq, s.st) or s.n != 5 or u is s:
         out.append(f"updated(n=7) gave {u} from {s}")
